@@ -454,6 +454,24 @@ def gen_roundtrip_programs(r, n, big=0.03):
                 ops.append(f"read_hash {rf} c0 {st}"); reads.append(len(ops) - 1)
                 ops.append(f"exists {rf} c0 {st}")
             expect.append((widx, algo, d, reads, key))
+            # the whole cache is cleared (or the entry removed fully) and the SAME bytes are written again through the
+            # same entry point: a write on a healthy filesystem succeeds and reads back - whatever the process still
+            # remembers about directories it made and addresses it published
+            if r.chance(0.2) and len(expect) == 1:
+                ops.append(f"clear {r.pick('sa')} c0" if key is None or r.chance(0.6) else f"remove_fully {r.pick('sa')} c0 {hx(key)}")
+                again = lambda wid: "W" + str(900 + int(wid[1:]))
+                w2 = [(" ".join(t[:3] + [again(t[3])] + t[4:]) if t[0] == "wopen" else
+                       " ".join([t[0], again(t[1])] + t[2:]) if t[0] in ("wwrite", "wcommit") else o)
+                      for o in w for t in [o.split(" ")]]
+                ops += w2
+                widx2 = len(ops) - 1
+                reads2 = []
+                for rf in ("s", "a"):
+                    if key is not None:
+                        ops.append(f"read {rf} c0 {hx(key)}"); reads2.append(len(ops) - 1)
+                    ops.append(f"read_hash {rf} c0 {st}"); reads2.append(len(ops) - 1)
+                expect.append((widx2, algo, d, reads2, key))
+                continue
             # the key is written again with an explicit time stamp OLDER than its current entry's: position
             # in the index decides what is current, not the clock
             if key is not None and r.chance(0.2):
@@ -487,6 +505,26 @@ def gen_roundtrip_programs(r, n, big=0.03):
                 expect.append((widx2, algo, d, reads2, k2))
         ops.append("dump c0/content-v2")
         progs.append(Program(f"rt{i}", ops, tags={"expect": expect}))
+    # fixed shapes: a short header, a large body and a short trailer on one handle (sync / async, keyed / by address)
+    body = bytes((j * 11 + 3) % 251 for j in range(100000))
+    for hi, (fl, keyed, sizes) in enumerate([("s", True, (16, 20000)), ("s", False, (16, 100000, 3)), ("a", True, (7, 16384, 1)),
+                                              ("s", True, (1, 16384)), ("a", False, (100, 70000, 8))]):
+        ids = G.Ids()
+        cs, off = [], 0
+        for n_ in sizes:
+            cs.append(body[off:off + n_]); off += n_
+        d = b"".join(cs)
+        key = b"hdr%d" % hi if keyed else None
+        _, w = w_stream(ids, fl, key, d, cs, algo="sha256")
+        ops = list(w); widx = len(ops) - 1
+        st = sri_tok("sha256", d)
+        reads = []
+        for rf in "sa":
+            if key is not None:
+                ops.append(f"read {rf} c0 {hx(key)}"); reads.append(len(ops) - 1)
+            ops.append(f"read_hash {rf} c0 {st}"); reads.append(len(ops) - 1)
+        ops.append("dump c0/content-v2")
+        progs.append(Program(f"rthdr{hi}", ops, tags={"expect": [(widx, "sha256", d, reads, key)], "variety": ("header", hi)}))
     return progs
 
 
@@ -1291,6 +1329,52 @@ def gen_block_boundary_programs(r):
     return progs
 
 
+def gen_multihash_removal_programs(r):
+    """C09: an entry whose (declared, accepted) integrity lists a second, weaker algorithm is removed fully while the
+    same bytes are also stored - by other keys, by address - under that weaker algorithm: the removal deletes the
+    entry's own content (the strongest hash's address) and nobody else's."""
+    progs = []
+    for fl in "sa":
+        for strong, weak in (("sha512", "sha256"), ("sha256", "sha1"), ("sha512", "sha1")):
+            ids = G.Ids()
+            d = b"bytes stored twice " + strong.encode()
+            decl = L.sri_of(strong, d) + " " + L.sri_of(weak, d)
+            ops = [w_oneshot("s", weak, b"plain", d), f"write_hash a c0 {weak} {hx(d)}"]
+            _, w = w_stream(ids, fl, b"declared", d, [d], algo=strong, sri=decl)
+            ops += w
+            expect = []
+            ops.append(f"read s c0 {hx(b'declared')}"); expect.append((len(ops) - 1, d))
+            ops.append(f"remove_fully {fl} c0 {hx(b'declared')}"); rm = len(ops) - 1
+            ops.append(f"read s c0 {hx(b'declared')}"); expect.append((len(ops) - 1, None))
+            for of in "sa":
+                ops.append(f"read {of} c0 {hx(b'plain')}"); expect.append((len(ops) - 1, d))
+                ops.append(f"read_hash {of} c0 {sri_tok(weak, d)}"); expect.append((len(ops) - 1, d))
+            ops.append(f"exists s c0 {sri_tok(strong, d)}"); gone = len(ops) - 1
+            progs.append(Program(f"mhrm-{strong}-{weak}-{fl}", ops, tags={"expect_reads": expect, "rm": rm, "gone": gone,
+                                                                          "variety": ("mhrm", strong, weak, fl)}))
+    return progs
+
+
+def mon_expect_reads(rr):
+    out = []
+    t = rr.prog.tags
+    if len(rr.impl) < len(rr.prog.ops):
+        return out
+    if toks(rr.impl[t["rm"]])[0] != "ok":
+        out.append(Failure("remove_failed", t["rm"], f"remove_fully -> {norm(rr.impl[t['rm']])[:60]}", sig={"op": "remove_fully"}))
+    for j, want in t["expect_reads"]:
+        res = toks(rr.impl[j])
+        if want is None:
+            if res[0] == "ok":
+                out.append(Failure("removed_key_still_there", j, "a fully removed key still reads", sig={"op": "read"}))
+        elif res[0] != "ok" or unhx(res[1]) != want:
+            out.append(Failure("other_entry_affected", j, f"`{rr.prog.ops[j][:40]}` -> {' '.join(res[:2])[:50]} after the full removal of "
+                               "ANOTHER key whose integrity also lists this algorithm", sig={"op": rr.prog.ops[j].split(' ')[0]}))
+    if norm(rr.impl[t["gone"]]) != "ok false":
+        out.append(Failure("content_not_removed", t["gone"], "the fully removed entry's own content is still there", sig={"op": "exists"}))
+    return out
+
+
 def gen_abandon_programs(r, n):
     progs = []
     for i in range(n):
@@ -1567,7 +1651,12 @@ def gen_bucket_programs(r, n):
         frames = [rec_frame(x) for x in recs]
         dmg, desc = damage_bucket(r, frames)
         bp = bucket_path(key.encode())
-        ops = [f"put {bp} {hx(dmg)}"]
+        ops = []
+        if r.chance(0.5):
+            # the same process has read the bucket while it was still intact: whatever it remembers about records
+            # it has validated (checksums, parsed buckets) must not make it accept the damaged text afterwards
+            ops += [f"put {bp} {hx(b''.join(frames))}", f"metadata s c0 {hx(key.encode())}", f"metadata a c0 {hx(key.encode())}", "list c0"]
+        ops.append(f"put {bp} {hx(dmg)}")
         look = []
         for fl in "sa":
             ops.append(f"metadata {fl} c0 {hx(key.encode())}"); look.append(len(ops) - 1)
